@@ -1,6 +1,7 @@
 CONSTANTS
   Slot = {1, 2, 3}
   Alloc = {1, 2}
+  MaxH = 9
   Thread = {1, 2}
   Depth = 5
 SPECIFICATION GenSpec
